@@ -53,6 +53,27 @@ def asciiEnv : CharEnv where
   isDigit := fun c => 48 ≤ c && c ≤ 57
   isWord := fun c => (48 ≤ c && c ≤ 57) || (65 ≤ c && c ≤ 90) || (97 ≤ c && c ≤ 122) || c == 95 || c ≥ 128
 
+/-- "Special" code points: non-ASCII code points that case-insensitive matching identifies with an
+    ASCII letter, with that letter (`(code point, its fold)`). -/
+abbrev Specials := List (Nat × Nat)
+
+/-- ASCII environment in which, additionally, every special code point folds to its ASCII image. -/
+def foldEnv (sp : Specials) : CharEnv :=
+  { asciiEnv with fold := fun c => match sp.lookup c with | some a => a | none => lowerCp c }
+
+/-- The four non-ASCII code points that Python's `re.IGNORECASE` identifies with ASCII letters:
+    U+0130 `İ` ~ `i` (simple lower-casing), U+0131 `ı` ~ `i`, U+017F `ſ` ~ `s` (sre's
+    `_ignorecase_fixes`), U+212A `K` ~ `k` (simple lower-casing). -/
+def foldSpecials : Specials := [(304, 105), (305, 105), (383, 115), (8490, 107)]
+
+/-- ASCII environment plus Python's four non-ASCII/ASCII case identifications. -/
+def pyFoldEnv : CharEnv :=
+  { asciiEnv with
+    fold := fun c => match foldSpecials.lookup c with | some a => a | none => lowerCp c }
+
+theorem pyFoldEnv_eq : pyFoldEnv = foldEnv foldSpecials := rfl
+theorem asciiEnv_eq : asciiEnv = foldEnv [] := rfl
+
 namespace Rx
 
 def catHas (env : CharEnv) : Cat → Nat → Bool
